@@ -572,8 +572,8 @@ theorem compile_obj (ctx : Ctx) (name : String) (cs : List Expr) :
     compile ctx (.obj name cs) =
       { vars := (compileList ctx [] 0 cs).flatMap (·.2.vars),
         cons := (compileList ctx [] 0 cs).flatMap (·.2.cons) ++ capConstrs ((compileList ctx [] 0 cs).flatMap (·.2.regs)),
-        obj := ((compileList ctx [] 0 cs).filter (fun (_, o) => o.pr.util)).flatMap (·.2.pr.utility),
-        objUb := ((compileList ctx [] 0 cs).filter (fun (_, o) => o.pr.util)).foldl (fun b (_, o) => addUb b o.pr.ub) (some 0) } := rfl
+        obj := ((compileList ctx [] 0 cs).filter (fun x => x.2.pr.util)).flatMap (·.2.pr.utility),
+        objUb := ((compileList ctx [] 0 cs).filter (fun x => x.2.pr.util)).foldl (fun b x => addUb b x.2.pr.ub) (some 0) } := rfl
 
 theorem populate_obj_placements (ctx : Ctx) (σ : Assign) (name : String) (cs : List Expr) :
     (populate ctx σ (.obj name cs)).placements = mergeChildren (populateList ctx σ [] 0 cs) := by
